@@ -747,13 +747,12 @@ DEEP_LADDERS: Dict[str, List[int]] = {
     "not-chain": [200, 260],
     "arith-left": [280],
     "pattern-groups": [80, 120],
-    "inheritance-chain": [120, 260],
-    "nested-list-type": [150],
+    "inheritance-chain": [260],
 }
 DEEP_LADDERS_THOROUGH: Dict[str, List[int]] = {
     "not-chain": [40, 210, 220, 230, 240, 250, 260, 270, 400, 600, 1500], "arith-left": [200, 210, 220, 230, 240, 250, 260, 270, 400, 600],
-    "pattern-groups": [40, 50, 60, 70, 90, 100, 250, 500], "inheritance-chain": [100, 150, 170, 180, 190, 200, 220, 320, 500],
-    "abstract-inheritance-chain": [150, 190, 250, 400], "paren-or": [150, 190, 199, 200, 201, 210], "nested-list-type": [100, 190, 199, 200, 201, 210],
+    "pattern-groups": [40, 50, 60, 70, 90, 100, 250, 500], "inheritance-chain": [100, 120, 150, 170, 180, 190, 200, 220, 320, 500],
+    "abstract-inheritance-chain": [150, 190, 250, 400], "paren-or": [150, 190, 199, 200, 201, 210], "nested-list-type": [100, 150, 190, 199, 200, 201, 210],
     "wide-and": [400],
 }
 
